@@ -117,9 +117,13 @@ func (p C14) Run(c *sim.Ctx, t *sim.Tape) sim.RunResult {
 
 	i := 0
 
+	// replaced: the call was swapped for a harmless query by the filter of recorded findings (nothing to repeat through wrappers).
+	replaced := map[int]bool{}
+
 	do := func(who *c03User, o fsx.Op) (out e1Outcome, stop bool) {
 		if filtered && w.avoided(c, "C14", o) {
 			o = insteadOf(o)
+			replaced[i] = true
 		}
 
 		out = w.step(c, "C14", i, o, who.env, who.uid, who.gid, who.umask)
@@ -361,6 +365,10 @@ func (p C14) Run(c *sim.Ctx, t *sim.Tape) sim.RunResult {
 
 	// wrappers: the same query through RoFS, FailFS and BasePathFS must give the same answer.
 	throughWrappers := func(who *c03User, o fsx.Op, direct fsx.Result) bool {
+		if replaced[i-1] {
+			return false // direct is the answer of another call
+		}
+
 		type wrapped struct {
 			name string
 			env  *fsx.Env
@@ -487,6 +495,10 @@ func (p C14) Run(c *sim.Ctx, t *sim.Tape) sim.RunResult {
 				return res
 			}
 
+			if throughWrappers(who, plain, out.a) {
+				return res
+			}
+
 			visits := 0
 			if out.a.Data != "" {
 				visits = strings.Count(out.a.Data, ",") + 1
@@ -504,10 +516,6 @@ func (p C14) Run(c *sim.Ctx, t *sim.Tape) sim.RunResult {
 				if _, stop := do(who, fsx.Op{K: "WalkDir", P: root, Act: act}); stop {
 					return res
 				}
-			}
-
-			if throughWrappers(who, plain, out.a) {
-				return res
 			}
 
 			act := 1 + t.Int(3)
